@@ -40,6 +40,7 @@ def run(ctx):
     tlc.require_coverage(r, ACTIONS + ["UseL", "PacketOutDataL", "RxL"], "Buffers with action lists " + c)
     ctx.add_model("Buffers with action lists " + c, r)
   # 2. spec -> code: every transition of the abstract graph
+  hows = set()
   for n in [0, 1, 2]:
     r = tlc.run("buffers", "MCBuffers", "EX_edges_N%d.cfg" % n, workers=1, coverage=False, tag="C18")
     behs = [sort_sets(b) for b in r.tagged("T")]
@@ -47,6 +48,7 @@ def run(ctx):
       raise tlc.TLCError("no behaviours exported for N=%d" % n)
     st = core.replay(ctx, ADAPTER, behs, params=dict(N=n))
     ctx.notes["replay_N%d" % n] = dict(behaviours=len(behs), **st)
+    hows |= set((s["a"], s["args"]["how"]) for b in behs for s in b[-1:] if s["a"] in ("FlowMod", "FlowModL"))
   # 2b. the same with action lists (one frame, two ports; the list steps are the point)
   for n in ([1, 2] if quick else [1, 2, 3]):
     r = tlc.run("buffers", "MCBuffers", "EX_lists_N%d.cfg" % n, workers=1, coverage=False, tag="C18", timeout=3000)
@@ -55,6 +57,12 @@ def run(ctx):
       raise tlc.TLCError("no list behaviours exported for N=%d" % n)
     st = core.replay(ctx, ADAPTER, behs, params=dict(N=n, ports=2))
     ctx.notes["replay_lists_N%d" % n] = dict(behaviours=len(behs), **st)
+    hows |= set((s["a"], s["args"]["how"]) for b in behs for s in b[-1:] if s["a"] in ("FlowMod", "FlowModL"))
+  # vacuity guard of the flow-mod form dimension: every form carried a buffer, with a single action and a list
+  missing = [(a, h) for a in ("FlowMod", "FlowModL") for h in FM_HOWS if (a, h) not in hows]
+  if missing:
+    raise core.Machinery("flow-mod forms never exported: %s" % missing)
+  ctx.notes["flow_mod_forms"] = sorted("%s/%s" % x for x in hows)
   # 3. long random behaviours
   num = 60 if quick else 1500
   r = tlc.run("buffers", "MCBuffers", "EX_sim.cfg" if quick else "EX_sim60.cfg", workers=1, coverage=False,
@@ -99,6 +107,9 @@ LISTS_PO = [["ctl"], ["table"], ["ctl", "rw", "out2"], ["rw", "ctl", "flood"], [
 PIN_KEYS = {"buf", "total", "dataLen", "inport", "reason", "tag", "k"}
 
 
+FM_HOWS = ["add", "addsame", "mod", "modnew", "modstrict", "modstrictnew"]
+
+
 def drive(arg):
   """Random operation sequence on the real switch; returns the recorded trace."""
   seed, n = arg
@@ -111,7 +122,8 @@ def drive(arg):
     if k < 0.3:
       a = rnd.choice(["PacketOutL", "FlowModL", "PacketOutDataL", "RxL"])
       if a in ("PacketOutL", "FlowModL"):
-        args = dict(buf=rnd.choice([0, 1, 2, 3, 4, 10]), acts=rnd.choice(LISTS_PO if a == "PacketOutL" else LISTS_FM))
+        args = dict(buf=rnd.choice([0, 1, 2, 3, 4, 10]), acts=rnd.choice(LISTS_PO if a == "PacketOutL" else LISTS_FM),
+                    how="-" if a == "PacketOutL" else rnd.choice(FM_HOWS))
         nbuf = sum(1 for x in args["acts"] if x in ("ctl", "table"))
         if args["buf"] in ad.bind.values() and nbuf > ad.N - len(ad.bind):
           continue          # the spec leaves this step out (see Buffers!UseL)
@@ -123,7 +135,8 @@ def drive(arg):
                   maxLen=rnd.choice([64, 65535]))
     elif k < 0.75:
       a = rnd.choice(["PacketOut", "FlowMod"])
-      args = dict(buf=rnd.choice([0, 1, 2, 3, 4, 10]), act=rnd.choice(ACTS))
+      args = dict(buf=rnd.choice([0, 1, 2, 3, 4, 10]), act=rnd.choice(ACTS),
+                  how="-" if a == "PacketOut" else rnd.choice(FM_HOWS))
     elif k < 0.8:
       a = "MissViaTable"
       args = dict(f=rnd.choice("ab"), p=rnd.randint(1, 3))
